@@ -1212,6 +1212,17 @@ def std_model(I, p, fr, t, args):
                 incl = d0.path.endswith("RangeInclusive") if d0.path else False
                 return Iter(list(range(s, e + (1 if incl else 0))))
         return Iter(None, sym=d0)
+    if n == "replace" and isinstance(d0, str) and len(args) == 3 and (c.startswith(("alloc::str", "alloc::string", "core::str")) or sadt.endswith("String") or "str" in c):
+        def _s(x):
+            x = I.deref(x)
+            if isinstance(x, str):
+                return x
+            if isinstance(x, int) and not isinstance(x, bool) and 0 <= x < 0x110000:
+                return chr(x)
+            return None
+        a, bb = _s(args[1]), _s(args[2])
+        if a is not None and bb is not None:
+            return d0.replace(a, bb)
     if n == "new" and (sadt == "core::ops::range::RangeInclusive" or (t.get("callee_key") or "").startswith("core::ops::range::RangeInclusive")) and len(args) == 2:
         return Adt("core::ops::range::RangeInclusive", "RangeInclusive", {"start": I.deref(args[0]), "end": I.deref(args[1]), "exhausted": False})
     if isinstance(d0, Adt) and d0.path in ("core::ops::range::Range", "core::ops::range::RangeInclusive") and \
